@@ -25,7 +25,7 @@ def build(shape, with_peq=False, discs=None, repr_=None):
                     a['Hash']['method'] = 'hash_m'
                 if with_peq and c == 'i':
                     a['PartialEq'] = {'ignore': True}
-            f = F(ty, S.FNAMES[i] if vk == 'named' else None, **a)
+            f = F(ty, S.fname(i, k, len(fl)) if vk == 'named' else None, **a)
             f.code = c
             fields.append(f)
         variants.append(V(S.VNAMES[k], vk, fields, disc=(discs[k] if discs and k < len(discs) else None)))
